@@ -48,7 +48,7 @@ def handedToks (entry start : String) (ts : List Tok) : Option (List Tok) :=
   | "sendel" => do
     let (n, as) ← startOf start
     pure (sendElementToks n as ts)
-  | "enc" | "tw" => some ts
+  | "enc" | "tw" | "reply" => some ts
   | "encel" => do
     let (n, as) ← startOf start
     pure (replaceOuter n as 0 ts)
